@@ -48,7 +48,7 @@ manifest = {
     "hooks": {
         "guard": "cargo feature `verif-hooks` of blots-core (off by default)",
         "enable": "harness depends on blots-core with features=[\"verif-hooks\"]; hooks-on CLI: cargo build --release -p blots --features blots-core/verif-hooks",
-        "baseline_off_cmd": "cd /repo && cargo test --workspace --no-fail-fast --offline",
+        "baseline_off_cmd": "cd /repo && cargo test --workspace --no-fail-fast --offline < /dev/null",
         "source_commits": hook_commits,
         "add_only": True,
     },
